@@ -53,6 +53,9 @@ def case(draw, tier):
          # fieldmap: an output field is added to the caller's mappings object after the view was first used
          "late_mapping": draw(st.integers(0, 3)) == 0,
          "plain_fn": draw(st.booleans()),
+         # fieldmap / rowmap / rowmapmany: the input rows are Record objects made under OTHER field names (the output of a
+         # records-bearing view whose header was renamed downstream); the mappers read the row by the CURRENT names
+         "record_rows": draw(st.integers(0, 3)) == 0,
          # convert: pass_row=True - the converter is handed (value, row)
          "pass_row": draw(st.integers(0, 3)) == 0,
          # convert: rows left out by where= (their cells may well be ones the converter fails on)
@@ -182,6 +185,9 @@ def check(case, ctx):
                 if carried:
                     m["carried"] = "xc"
                     tbl = [hdr + ["xc"]] + [row + [carried.get(i, "plain")] for i, row in enumerate(tbl[1:])]
+                if case.get("record_rows") and n:
+                    tbl = [tbl[0]] + list(etl.records([["zz%d" % i for i in range(len(tbl[0]))]] + tbl[1:]))
+                    ctx.label("record-rows")
                 view = etl.fieldmap(tbl, m, errorvalue=errorvalue, **kw)
                 if case.get("late_mapping"):
                     # the view is used once, then the caller adds an output
@@ -232,8 +238,12 @@ def check(case, ctx):
             if lazy:
                 ctx.label("lazy-mapper-result")
 
+            if case.get("record_rows") and n:
+                tbl = [hdr] + list(etl.records([["zz%d" % i for i in range(nf)]] + tbl[1:]))
+                ctx.label("record-rows")
+
             def mapper(rec):
-                r = int(rec[0][1:].split("c")[0])
+                r = int(rec[hdr[0]][1:].split("c")[0])
                 if lazy:
                     def cells():
                         for j, v in enumerate(rec):
@@ -264,8 +274,12 @@ def check(case, ctx):
             if lazy:
                 ctx.label("lazy-mapper-result")
 
+            if case.get("record_rows") and n:
+                tbl = [hdr] + list(etl.records([["zz%d" % i for i in range(nf)]] + tbl[1:]))
+                ctx.label("record-rows")
+
             def genrows(rec):
-                r = int(rec[0][1:].split("c")[0])
+                r = int(rec[hdr[0]][1:].split("c")[0])
                 k, fails = plan[r]
                 for j in range(k):
                     yield (x for x in [r, j]) if lazy else [r, j]
@@ -284,7 +298,7 @@ def check(case, ctx):
                 ctx.label("plain-function-rowgenerator")
 
                 def genrows(rec):  # noqa: F811
-                    r = int(rec[0][1:].split("c")[0])
+                    r = int(rec[hdr[0]][1:].split("c")[0])
                     k, fails = plan[r]
                     if fails:
                         raise cls(_tok(r, 0))
